@@ -69,6 +69,8 @@ def sk_dump(sk, fmt):
 
 def sk_load(lk, data, fmt, curve, hashfunc):
     p = fmt.split(":")
+    if len(p) > 1 and p[1].startswith("pkcs8"):
+        p[1] = "pkcs8"
     if p[0] == "string":
         return lk.SigningKey.from_string(data, curve, hashfunc)
     if p[0] == "der":
@@ -103,6 +105,30 @@ def model_sk_bytes(mc, d, Q, fmt):
     if p[1] == "ssleay":
         body = mder.ec_private_key(mc.oid, db, pt)
         label = "EC PRIVATE KEY"
+    elif p[1] in ("pkcs8v0", "pkcs8attrs", "pkcs8pub", "pkcs8both"):
+        # OneAsymmetricKey variants a peer may write (RFC 5958): the loader
+        # documents that attributes and publicKey are ignored
+        tail = b""
+        if p[1] in ("pkcs8attrs", "pkcs8both"):
+            # attributes [0] IMPLICIT SET OF Attribute (constructed)
+            attr = mder.enc_seq(mder.enc_oid((1, 2, 840, 113549, 1, 9, 9, 20)),
+                                mder.tlv(0x31, mder.tlv(0x0C, b"peer")))
+            tail += mder.tlv(0xA0, attr)
+        if p[1] in ("pkcs8pub", "pkcs8both"):
+            # publicKey [1] IMPLICIT BIT STRING (primitive)
+            tail += mder.tlv(0x81, b"\x00" + pt)
+        ver = 0 if p[1] == "pkcs8v0" else 1
+        body = mder.enc_seq(
+            mder.enc_int(ver),
+            mder.enc_seq(mder.enc_oid(mder.OID_EC_PUBLIC_KEY),
+                         mder.enc_oid(mc.oid)),
+            mder.enc_octets(mder.ec_private_key(mc.oid, db, pt)), tail) \
+            if tail else mder.enc_seq(
+                mder.enc_int(ver),
+                mder.enc_seq(mder.enc_oid(mder.OID_EC_PUBLIC_KEY),
+                             mder.enc_oid(mc.oid)),
+                mder.enc_octets(mder.ec_private_key(mc.oid, db, pt)))
+        label = "PRIVATE KEY"
     else:
         body = mder.pkcs8(mc.oid, db, pt)
         label = "PRIVATE KEY"
